@@ -34,7 +34,7 @@ Theorem classification_matches_name : forall s v,
   exists m r, meaning_of s = Some m /\ row_of s = Some r /\
     cipher_settings_ok m r = true /\ mac_settings_ok m r = true /\ prf_ok m r v = true /\
     labels_ok m r v = true /\ exporter_ok m r v = true /\ deprecated_ok m r v = true /\
-    keyupdate_ok m r v = true /\ psk_ok m r v = true /\ chk_dispatch s = true.
+    keyupdate_ok m r v = true /\ psk_ok m r v = true /\ cert_ok m r = true /\ chk_dispatch s = true.
 Proof. exact L_classification. Qed.
 
 (* a suite is negotiable only in a version that defines it: TLS 1.3 suites exactly in TLS 1.3,
